@@ -342,8 +342,11 @@ def _r1(ctx, m):
     incs = [f for f in fl.facts if f.kind == "augassign" and f.target == counter] if counter is not None else []
     if counter is not None:
         ini = fl.assigns.get(counter, [])
-        ctx.check(len(ini) == 1 and ini[0][0] == ("const", 0) and not ini[0][1] and not ini[0][2], "R1", "nnz-init", (FILE, ini[0][3] if ini else m.func.lineno),
-                  f"`{counter}` is initialised once to 0 before the loops", expected=f"{counter} = 0", found="; ".join(show(x[0]) for x in ini))
+        if len(ini) == 1 and simp(ini[0][0])[0] != "const":
+            ctx.unrec("R1", "nnz-init", (FILE, ini[0][3]), f"the initial value of `{counter}` is not a literal: {show(simp(ini[0][0]))[:80]}")
+        else:
+            ctx.check(len(ini) == 1 and simp(ini[0][0]) == ("const", 0) and not ini[0][1] and not ini[0][2], "R1", "nnz-init", (FILE, ini[0][3] if ini else m.func.lineno),
+                      f"`{counter}` is initialised once to 0 before the loops", expected=f"{counter} = 0", found="; ".join(show(x[0]) for x in ini))
         if len(incs) == 1 and (simp(incs[0].value)[0] == "const" or incs[0].op != "Add"):
             ctx.check(incs[0].op == "Add" and simp(incs[0].value) == ("const", 1), "R1", "nnz-increment", (FILE, incs[0].line),
                       f"`{counter}` is only ever incremented by 1, at one site", found="; ".join(f"{f.op} {show(f.value)} @{f.line}" for f in incs))
